@@ -82,11 +82,22 @@ def _with_options(h, name):
     a1, v, z, q = h.real('configured_arg'), h.real('configured_keyword'), h.real('call_arg'), h.real('call_keyword')
     cret = 'real' if kind == 'additive' else 'same'
     fret = 'same' if kind == 'outer' else 'real'
-    c = h.fn('COUPLED', ret=cret)
-    f = h.fn('DECORATED', ret=fret)
-    func = h.call(h.call(h.get(C + name), c, h.tup(a1), h.dict(t=v)), f)
+    c = h.fn('COUPLED', ret=cret, log='coupled_calls')
+    f = h.fn('DECORATED', ret=fret, log='decorated_calls')
+    # the configured positional arguments may be given as a tuple or as a list (one argument each way here)
+    as_list = h.choice('args_given_as', ['tuple', 'list']) == 'list'
+    func = h.call(h.call(h.get(C + name), c, (h.clist([a1]) if as_list else h.tup(a1)), h.dict(t=v)), f)
     x = h.vec('x', 2)
-    r = h.call(func, x, z, u=q)
+    r, exc = h.call_raises(func, x, z, u=q)
+    # the configured arguments arrive as separate positional arguments (also when they were given as a list)
+    got = h.log('decorated_calls' if proxy else 'coupled_calls')
+    other = h.log('coupled_calls' if proxy else 'decorated_calls')
+    h.check('configured-arguments-arrive-one-by-one-at-their-own-side', 'ok',
+            ok=(exc is None and len(got) == 1 and len(got[0]) == 2 and got[0][1] is a1 and len(other) == 1 and len(other[0]) == 2 and other[0][1] is z))
+    if exc is not None:
+        return
+    h.st.ghost.pop('coupled_calls', None)
+    h.st.ghost.pop('decorated_calls', None)
     C_conf = lambda arg: h.call(c, arg, a1, t=v)          # noqa: E731
     C_call = lambda arg: h.call(c, arg, z, u=q)           # noqa: E731
     F_conf = lambda arg: h.call(f, arg, a1, t=v)          # noqa: E731
